@@ -190,7 +190,11 @@ pub fn content(seed: u32, len: u32) -> Vec<u8> {
 
 pub fn lfn_checksum(name: &[u8; 11]) -> u8 {
     let mut s: u8 = 0;
-    for &b in name.iter() {
+    let mut stored = *name;
+    if stored[0] == 0xE5 {
+        stored[0] = 0x05;
+    }
+    for &b in stored.iter() {
         s = (if s & 1 != 0 { 0x80u8 } else { 0 })
             .wrapping_add(s >> 1)
             .wrapping_add(b);
@@ -241,6 +245,11 @@ pub fn lfn_run(units: &[u16], csum: u8) -> Vec<Raw32> {
 pub fn short_entry(name: &[u8; 11], attr: u8, cluster: u32, size: u32, t: &Times, fat32: bool) -> Raw32 {
     let mut e = [0u8; 32];
     e[0..11].copy_from_slice(name);
+    if e[0] == 0xE5 {
+        // fatgen103: a name whose first character is 0xE5 is stored with 0x05 there,
+        // because 0xE5 in that position marks a free slot
+        e[0] = 0x05;
+    }
     e[11] = attr;
     e[12] = 0;
     e[13] = t.ctenths;
